@@ -5,12 +5,16 @@
   iterations write the same cell shows up as a "shared" entry and this theorem stops checking.
 
   Why these kinds are private: count pass: `Nout[tid]` and the thread's own block of `keep`; fill pass: cursors started at `gstart[tid]` (distinctness of the cursors is `fill_is_filter`); `fast_concatenate`: the thread's own block.
+
+  `loopvar`, `tid` (the executing thread's own row) and `local` (an array created inside the loop body) are
+  unconditionally private and allowed everywhere; `block` / `cursor` kinds are allowed only where a theorem of this
+  property proves the blocks / cursors disjoint.
 -/
 import AbacusVerif.Generated.PrangeC10
 
 namespace AbacusVerif.PrangeC10
 
-def allowedKinds : List String := ["loopvar", "block", "block-shifted", "cursor"]
+def allowedKinds : List String := ["loopvar", "tid", "local", "block", "block-shifted", "cursor"]
 
 /-- every store in every `prange` loop is of a private kind -/
 theorem prange_writes_private : ∀ e ∈ prangeWrites, e.2.2 ∈ allowedKinds := by decide +kernel
